@@ -1,0 +1,24 @@
+// SPDX-License-Identifier: Apache 2.0
+
+//go:build verif
+
+package fdo
+
+import (
+	"context"
+
+	"github.com/fido-device-onboard/go-fdo/kex"
+	"github.com/fido-device-onboard/go-fdo/serviceinfo"
+)
+
+// Verification hooks: exported views of unexported protocol code for the
+// external verification harness. Compiled only with -tags verif; adds no
+// behaviour.
+
+// VerifExchangeServiceInfoRound runs the device-side packing/sending loop of
+// TO2.DeviceServiceInfo exactly as TO2 does.
+func VerifExchangeServiceInfoRound(ctx context.Context, transport Transport, mtu uint16,
+	r *serviceinfo.ChunkReader, w *serviceinfo.ChunkWriter, sess kex.Session,
+) (int, bool, error) {
+	return exchangeServiceInfoRound(ctx, transport, mtu, r, w, sess)
+}
